@@ -48,7 +48,7 @@ theorem v2_safe_spelled (cfg : Config) (s : St) (h : safe cfg s = true) :
     thread (`completion_on_waiters_scheduler` for value completions). -/
 theorem v2_two_waiters_safe_inst :
     ∀ s, Reach (sys cfgTwoWaiters) s → (safe cfgTwoWaiters s && affine s) = true :=
-  safe_of_checkC _ { coded with M := 601, W := 240 } 400 _ (by decide +kernel)
+  safe_of_checkC _ { coded with M := 601, W := 256 } 400 _ (by decide +kernel)
 
 /-- one cancellable waiter, stop request vs start, final set(): `safe` (exactly one completion,
     value only after a set, done only after a stop request that removed the waiter, no access to
